@@ -55,7 +55,8 @@ struct Case {
     class: String,
     query: String,
     /// "numerals": full oracle; "lexical": returns + text-only numeral cross-check;
-    /// "returns": returns (AST is not inspected, nest class)
+    /// "strings": returns + the AST string literals equal `fixed` (str:<hex> tokens);
+    /// "returns": returns (AST is not inspected: nest class, implementation-defined escapes)
     oracle: String,
     #[serde(default)]
     fixed: Vec<String>,
@@ -184,15 +185,90 @@ fn scan_tokens(dbg: &str) -> Vec<String> {
     out
 }
 
+
+fn hex_of(s: &str) -> String {
+    s.bytes().map(|b| format!("{b:02x}")).collect()
+}
+fn tok_str(s: &str) -> String {
+    format!("str:{}", hex_of(s))
+}
+fn show_str_tok(t: &str) -> String {
+    let h = t.strip_prefix("str:").unwrap_or(t);
+    let bytes: Vec<u8> = (0..h.len() / 2).filter_map(|i| u8::from_str_radix(&h[2 * i..2 * i + 2], 16).ok()).collect();
+    format!("{:?}", String::from_utf8_lossy(&bytes))
+}
+
+/// String literals of the AST: every `String("...")` of the Debug rendering, with Rust's
+/// Debug escaping undone, as `str:<hex of the UTF-8 bytes>` tokens (sorted).
+fn scan_str_tokens(dbg: &str) -> Vec<String> {
+    let b = dbg.as_bytes();
+    let mut out = Vec::new();
+    let mut i = 0usize;
+    while i < b.len() {
+        if b[i] != b'"' {
+            i += 1;
+            continue;
+        }
+        let is_value = dbg[..i].ends_with("String(") && !(i >= 8 && is_ident_byte(b[i - 8]));
+        // undo Debug escaping up to the closing quote
+        let mut val = String::new();
+        let mut chars = dbg[i + 1..].char_indices();
+        let mut end = dbg.len();
+        while let Some((off, c)) = chars.next() {
+            if c == '"' {
+                end = i + 1 + off + 1;
+                break;
+            }
+            if c != '\\' {
+                val.push(c);
+                continue;
+            }
+            match chars.next().map(|x| x.1) {
+                Some('n') => val.push('\n'),
+                Some('r') => val.push('\r'),
+                Some('t') => val.push('\t'),
+                Some('0') => val.push('\0'),
+                Some('u') => {
+                    // \u{hex}
+                    let mut hex = String::new();
+                    for (_, h) in chars.by_ref() {
+                        if h == '}' {
+                            break;
+                        }
+                        if h != '{' {
+                            hex.push(h);
+                        }
+                    }
+                    if let Some(ch) = u32::from_str_radix(&hex, 16).ok().and_then(char::from_u32) {
+                        val.push(ch);
+                    }
+                }
+                Some(other) => val.push(other),
+                None => {}
+            }
+        }
+        if is_value {
+            out.push(tok_str(&val));
+        }
+        i = end;
+    }
+    out.sort();
+    out
+}
+
 // =======================================================================================
 // Worker side: run one case, return a compact verdict
 
 fn exec_query(query: &str, scan: bool, mark_pipeline: bool) -> Vec<u8> {
+    exec_query_mode(query, scan, mark_pipeline, false)
+}
+
+fn exec_query_mode(query: &str, scan: bool, mark_pipeline: bool, strings: bool) -> Vec<u8> {
     match catch(|| samyama::query::parse_query(query)) {
         Ok(Ok(q)) => {
             if scan {
                 let dbg = format!("{:?}", q);
-                let mut toks = scan_tokens(&dbg);
+                let mut toks = if strings { scan_str_tokens(&dbg) } else { scan_tokens(&dbg) };
                 if mark_pipeline && q.needs_clause_pipeline {
                     toks.push("pipeline".into());
                 }
@@ -221,7 +297,7 @@ fn exec_query(query: &str, scan: bool, mark_pipeline: bool) -> Vec<u8> {
 fn child_run(case: &Case) -> Vec<u8> {
     let scan = case.oracle != "returns";
     if case.stack_kib == 0 {
-        exec_query(&case.query, scan, case.class == "probe")
+        exec_query_mode(&case.query, scan, case.class == "probe", case.oracle == "strings")
     } else {
         // the runtime's "has overflowed its stack" message is expected noise here
         unsafe {
@@ -745,6 +821,19 @@ fn judge(case: &Case, actual: &Actual, kfs: &Kfs) -> Verdict {
         Actual::Err(_) => Verdict::Pass { refusal: case.oracle != "numerals" || case.slots.iter().all(|s| s.fit.is_some()) },
         Actual::Ok(tokens) => match case.oracle.as_str() {
             "returns" => Verdict::Pass { refusal: false },
+            "strings" => {
+                let mut e = case.fixed.clone();
+                e.sort();
+                if &e == tokens {
+                    Verdict::Pass { refusal: false }
+                } else {
+                    Verdict::Violation(format!(
+                        "accepted with string literals {:?}; the text denotes {:?}",
+                        tokens.iter().map(|t| show_str_tok(t)).collect::<Vec<_>>(),
+                        e.iter().map(|t| show_str_tok(t)).collect::<Vec<_>>()
+                    ))
+                }
+            }
             "finite" | "lexical" => match lexical_check(&case.query, tokens) {
                 Ok(()) => Verdict::Pass { refusal: false },
                 Err((m, Some(kf))) if kfs.on(kf) => {
@@ -1098,6 +1187,67 @@ const DIM_CTX: &[&str] = &[
     "CREATE VECTOR INDEX FOR (n:L) ON (n.e) OPTIONS {dimensions: @N@, similarity: 'l2'}",
 ];
 
+
+/// @S@ = the string literal under test (value position: read back as `String(..)`)
+const STR_CTX: &[&str] = &[
+    "RETURN @S@",
+    "RETURN @S@ AS s",
+    "MATCH (n) WHERE n.name = @S@ RETURN n",
+    "MATCH (n) WHERE n.name STARTS WITH @S@ RETURN n",
+    "MATCH (n) WHERE n.name =~ @S@ RETURN n",
+    "MATCH (n) WHERE n.name IN [@S@, 'b'] RETURN n",
+    "CREATE (n:L {name: @S@})",
+    "MATCH (n:L {name: @S@}) RETURN n",
+    "MERGE (n:L {k: 1}) ON CREATE SET n.name = @S@",
+    "MATCH (n) SET n.name = @S@",
+    "RETURN [@S@, 'x'] AS xs",
+    "MATCH (n) RETURN [@S@, n.x] AS xs",
+    "RETURN {k: @S@} AS m",
+    "MATCH (n) RETURN {k: @S@, j: n.x} AS m",
+    "RETURN toUpper(@S@) AS v",
+    "RETURN coalesce(null, @S@) AS v",
+    "RETURN substring(@S@, 1) AS v",
+    "RETURN @S@ + 'z' AS v",
+    "UNWIND [@S@] AS x RETURN x",
+    "RETURN CASE WHEN true THEN @S@ ELSE 'e' END AS v",
+    "MATCH (a)-[r:T {w: @S@}]->(b) RETURN r",
+    "CALL db.idx(@S@) YIELD x RETURN x",
+    "RETURN {a: [@S@, {b: 'q'}]} AS m",
+    "MATCH (n) WHERE n.a = @S@ OR n.b CONTAINS @S@ RETURN n",
+    "FOREACH (s IN [@S@] | CREATE (:L {name: s}))",
+    "RETURN [x IN [@S@] WHERE x <> 'n' | x] AS v",
+    "RETURN @S@ AS s // 'comment' \"text\"",
+    "WITH @S@ AS s RETURN s",
+    "MATCH (n) RETURN n ORDER BY n.name + @S@",
+    "CREATE (a:A) WITH a CREATE (b:B {name: @S@})",
+    "RETURN 'a' AS a UNION RETURN @S@ AS a",
+    "MATCH (n) WHERE n.name ENDS WITH @S@ RETURN count(*) AS c",
+    "CREATE (n:L {tags: [@S@, 't'], name: 'n'})",
+];
+/// string used where the AST does not keep it as a `String(..)` value (map keys, options):
+/// only "returns" is asserted there
+const STR_KEY_CTX: &[&str] = &[
+    "RETURN {@S@: 1} AS m",
+    "MATCH (n) RETURN {@S@: n.x} AS m",
+    "CREATE (n:L {p: {@S@: 1}})",
+    "CREATE VECTOR INDEX idx FOR (n:L) ON (n.e) OPTIONS {dimensions: 4, similarity: @S@}",
+];
+
+const STR_PLAIN: &[&str] = &["a", "abc", "Hello World", " x y ", "123", "a-b_c", "%", "#;:,.()[]{}", "$p", "/*c*/", "// c", " ", "1e999", "*..2", "u0041", "n"];
+const STR_NONASCII: &[&str] = &["\u{e9}", "\u{65e5}\u{672c}", "\u{1F600}", "e\u{301}", "\u{df}", "\u{202e}", "\u{feff}", "\u{a0}", "\u{10FFFF}", "\u{7f}", "\u{80}"];
+const STR_RAWCTL: &[&str] = &["\t", "\n", "\r\n", "\u{1}", "\u{0}"];
+/// escapes whose meaning openCypher fixes: (text, value)
+const STR_STD_ESC: &[(&str, &str)] = &[("\\\\", "\\"), ("\\'", "'"), ("\\\"", "\""), ("\\n", "\n"), ("\\t", "\t"), ("\\r", "\r"), ("\\b", "\u{8}"), ("\\f", "\u{c}")];
+/// \uXXXX code points that are Unicode scalar values (boundaries around the surrogate gap)
+const STR_U_VALID: &[u32] = &[0x0000, 0x0041, 0x007F, 0x0080, 0x00E9, 0x07FF, 0x0800, 0xD7FF, 0xE000, 0xFFFD, 0xFFFE, 0xFFFF];
+/// escape forms whose meaning is implementation-defined here: only "returns" is asserted
+const STR_IMPL_ESC: &[&str] = &[
+    "\\0", "\\uD800", "\\uDBFF", "\\uDC00", "\\uDFFF", "\\ud800", "\\udead", "\\uD83D\\uDE00", "\\uDE00\\uD83D", "\\uD800\\uD800", "\\uD83Dx",
+    "\\u", "\\u1", "\\u12", "\\u123", "\\u12G4", "\\uZZZZ", "\\u+123", "\\u-123", "\\u 123", "\\u{1F600}", "\\u00\u{e9}9", "\\u\u{1F600}",
+    "\\U0001F600", "\\UD800DC00", "\\x41", "\\xZZ", "\\q", "\\\u{e9}", "\\\u{1F600}", "\\ ", "\\/", "\\-", "\\1", "\\\n", "\\\u{0}", "\\a", "\\v", "\\e",
+    "\\N{BULLET}", "\\101", "\\u0041\\uD800",
+];
+
 const WS: &[&str] = &[" ", " ", " ", "\n", "\t", "  ", " /*c*/ ", "\r\n"];
 
 // =======================================================================================
@@ -1112,6 +1262,7 @@ enum Spec {
     Dim { ctx: u16, n: NumSpec },
     Subst { slot: u16, n: NumSpec, f: u16, use_float: u8 },
     Mutate { seed: u16, ops: Vec<(u8, u16, u16, u16)> },
+    Str { ctx: u16, quote: u8, key_ctx: u8, pieces: Vec<(u8, u16)> },
 }
 
 fn spec_strategy() -> impl Strategy<Value = Spec> {
@@ -1125,6 +1276,7 @@ fn spec_strategy() -> impl Strategy<Value = Spec> {
         1 => (any::<u16>(), num_spec()).prop_map(|(ctx, n)| Spec::Dim { ctx, n }),
         12 => (any::<u16>(), num_spec(), any::<u16>(), 0u8..4).prop_map(|(slot, n, f, use_float)| Spec::Subst { slot, n, f, use_float }),
         17 => mutate,
+        14 => (any::<u16>(), 0u8..2, 0u8..12, proptest::collection::vec((0u8..16, any::<u16>()), 0..6)).prop_map(|(ctx, quote, key_ctx, pieces)| Spec::Str { ctx, quote, key_ctx, pieces }),
     ]
 }
 
@@ -1293,6 +1445,7 @@ fn render(spec: &Spec, seeds: &Seeds) -> Case {
         }
         Spec::Subst { slot, n, f, use_float } => render_subst(*slot, n, *f, *use_float, seeds),
         Spec::Mutate { seed, ops } => render_mutate(*seed, ops, seeds),
+        Spec::Str { ctx, quote, key_ctx, pieces } => render_str(*ctx, *quote, *key_ctx, pieces),
     }
 }
 
@@ -1304,6 +1457,8 @@ const BOUNDARY_TEXTS: &[&str] = &[
     "1.7976931348623159e308", ".5e400", "0x", "0o8", "1.", "1e", "1e+", "00", "007", "0b1", "1_000",
 ];
 const DICT: &[&str] = &[
+    "\\uD800", "\\uDC00", "\\udead", "\\uD83D\\uDE00", "\\uDFFF", "\\u", "\\u12", "\\uZZZZ", "\\u0041", "\\uFFFF", "\\U0001F600", "\\x41", "\\0",
+    "\\b", "\\f", "\\n", "\\\\", "\\'", "\\\"", "'\\uD800'", "\"\\udead\"", "'\\'", "'\\uD83D\\uDE00'", "'a\\", "\\\u{e9}", "\\\u{1F600}",
     " SKIP ", " LIMIT ", "*", "..", "-", "--", "0x", "0o", "e999", ".5", "*1..", "*..2", "*0x2", "* 1 .. 2", "[", "]", "(", ")", "{", "}",
     " UNION ", " UNION ALL ", " WITH ", " RETURN ", " WHERE ", " ORDER BY ", " AS ", "'", "\"", "\\", "/*", "*/", "//", ";", "$p", " IN ",
     " NOT ", " IS NULL", " IS NOT NULL", " CASE WHEN ", " THEN ", " ELSE ", " END", "|", ":", ",", "=", "<>", "=~", "^", "%", "+=", " AND ",
@@ -1311,6 +1466,120 @@ const DICT: &[&str] = &[
     " ON CREATE SET ", " DETACH DELETE ", " EXPLAIN ", " PROFILE ", " EXISTS {", "reduce(", "all(", " STARTS WITH ", " CONTAINS ", " UNWIND ",
     " CREATE ", " SET ", " REMOVE ", " DESC", "<-", "->", "-[", "]-", "\u{0}", "\u{feff}", "\u{e9}", "\u{1F600}", "\u{202e}", "\u{a0}", "\r\n", "\t",
 ];
+
+
+/// plain quoted literals written in a template are expected verbatim
+fn fixed_str_tokens(template_text: &str) -> Vec<String> {
+    let mut out = Vec::new();
+    let b = template_text.as_bytes();
+    let mut i = 0;
+    while i < b.len() {
+        if b[i] == b'/' && i + 1 < b.len() && b[i + 1] == b'/' {
+            break;
+        }
+        if b[i] == b'\'' || b[i] == b'"' {
+            let q = b[i];
+            let st = i + 1;
+            i += 1;
+            while i < b.len() && b[i] != q {
+                i += 1;
+            }
+            out.push(tok_str(&template_text[st..i.min(b.len())]));
+        }
+        i += 1;
+    }
+    out
+}
+
+fn render_str(ctx: u16, quote: u8, key_ctx: u8, pieces: &[(u8, u16)]) -> Case {
+    let q = if quote == 0 { '\'' } else { '"' };
+    let other = if quote == 0 { "\"" } else { "'" };
+    let mut text = String::new();
+    let mut value = String::new();
+    let mut defined = true;
+    let mut structural = false;
+    for (i, (kind, sel)) in pieces.iter().enumerate() {
+        match kind {
+            0..=2 => {
+                let p = STR_PLAIN[pick_idx(*sel, STR_PLAIN.len())];
+                text.push_str(p);
+                value.push_str(p);
+            }
+            3 => {
+                text.push_str(other);
+                value.push_str(other);
+            }
+            4 => {
+                let p = STR_NONASCII[pick_idx(*sel, STR_NONASCII.len())];
+                text.push_str(p);
+                value.push_str(p);
+            }
+            5 => {
+                let p = STR_RAWCTL[pick_idx(*sel, STR_RAWCTL.len())];
+                text.push_str(p);
+                value.push_str(p);
+            }
+            6..=8 => {
+                let (t, v) = STR_STD_ESC[pick_idx(*sel, STR_STD_ESC.len())];
+                text.push_str(t);
+                value.push_str(v);
+            }
+            9..=11 => {
+                let cp = STR_U_VALID[pick_idx(*sel, STR_U_VALID.len())];
+                if sel & 1 == 0 {
+                    text.push_str(&format!("\\u{:04X}", cp));
+                } else {
+                    text.push_str(&format!("\\u{:04x}", cp));
+                }
+                value.push(char::from_u32(cp).unwrap());
+            }
+            12..=14 => {
+                text.push_str(STR_IMPL_ESC[pick_idx(*sel, STR_IMPL_ESC.len())]);
+                defined = false;
+            }
+            _ => {
+                // structural: a backslash right before the closing quote (as the last piece),
+                // or the quote character itself unescaped
+                structural = true;
+                defined = false;
+                if i + 1 == pieces.len() || sel & 1 == 0 {
+                    text.push('\\');
+                } else {
+                    text.push(q);
+                }
+            }
+        }
+    }
+    let lit = format!("{q}{text}{q}");
+    let use_key = key_ctx == 0;
+    let (tpl, ci) = if use_key {
+        let i = pick_idx(ctx, STR_KEY_CTX.len());
+        (STR_KEY_CTX[i], 100 + i)
+    } else {
+        let i = pick_idx(ctx, STR_CTX.len());
+        (STR_CTX[i], i)
+    };
+    let kind = if structural {
+        "structural"
+    } else if !defined {
+        "impl_defined"
+    } else if use_key {
+        "key"
+    } else {
+        "defined"
+    };
+    let mut fixed = Vec::new();
+    let oracle = if defined && !use_key {
+        fixed = fixed_str_tokens(&tpl.replace("@S@", ""));
+        for _ in 0..tpl.matches("@S@").count() {
+            fixed.push(tok_str(&value));
+        }
+        "strings"
+    } else {
+        "returns"
+    };
+    Case { class: format!("string:{kind}:c{ci:02}"), query: tpl.replace("@S@", &lit), oracle: oracle.into(), fixed, slots: vec![], stack_kib: 0, depth: 0 }
+}
 
 fn render_mutate(seed_sel: u16, ops: &[(u8, u16, u16, u16)], seeds: &Seeds) -> Case {
     let si = pick_idx(seed_sel, seeds.texts.len());
@@ -1509,6 +1778,9 @@ fn load_seeds(ev: &mut Evidence) -> Seeds {
     for t in DIM_CTX {
         texts.push(t.replace("@N@", "4"));
     }
+    for (i, t) in STR_CTX.iter().chain(STR_KEY_CTX.iter()).enumerate() {
+        texts.push(t.replace("@S@", ["'a\\nb'", "\"it\\'s \\u0041\"", "'\\\\'"][i % 3]));
+    }
     let mut probes: Vec<Case> = Vec::new();
     let mut index: Vec<(usize, Option<NumTok>)> = Vec::new();
     for (i, t) in texts.iter().enumerate() {
@@ -1651,6 +1923,8 @@ fn text_has_boundary_numeral(q: &str) -> bool {
 fn is_nontrivial(c: &Case) -> bool {
     if c.oracle == "numerals" && !c.slots.is_empty() {
         c.slots.iter().any(|s| s.boundary)
+    } else if c.class.starts_with("string:") {
+        c.query.contains('\\') || !c.query.is_ascii()
     } else if c.class.starts_with("nest:") {
         c.depth >= 64
     } else {
@@ -1734,7 +2008,7 @@ impl<'a> Run<'a> {
     }
     /// shrink a failing non-structured case (universal oracle) by deleting characters
     fn shrink_text(&self, c: &Case) -> Case {
-        if c.oracle == "numerals" || c.class.starts_with("nest:") {
+        if c.oracle == "numerals" || c.oracle == "strings" || c.class.starts_with("nest:") {
             return c.clone();
         }
         let chars: Vec<char> = c.query.chars().collect();
@@ -1798,7 +2072,7 @@ fn main() {
     let ev = Evidence::new(
         &args,
         "exploration",
-        "grammar templates with boundary numerals in every numeric slot (var-length *n, *m..n, *..n, *m.. in 20 pattern positions; SKIP/LIMIT in 31 statement forms; integer dec/hex/octal and float literals with 8 sign forms in 54 expression/value positions), numeral substitution into the repo's own test queries, byte/dictionary mutation of those queries (bracket depth capped at 10), homogeneous deep nesting; each case parsed in a forked worker under a 5 s watchdog; Ok => AST numerals equal the written values exactly, unfit value => Err. Non-trivial = the query contains a numeral within 2 of 0 / 2^31 / 2^32 / 2^63 / 2^64 or beyond 2^63, a negative count, a float beyond 1e306 / below 1e-306 / overflowing, or (nest class) depth >= 64; distinct = distinct query texts.",
+        "grammar templates with boundary numerals in every numeric slot (var-length *n, *m..n, *..n, *m.. in 20 pattern positions; SKIP/LIMIT in 31 statement forms; integer dec/hex/octal and float literals with 8 sign forms in 54 expression/value positions), numeral substitution into the repo's own test queries, byte/dictionary mutation of those queries (bracket depth capped at 10), homogeneous deep nesting, string literals (both quote kinds, 33 value positions + 4 key/option positions) built from plain / non-ASCII / raw control text, the standard escapes, \\uXXXX at the boundaries of the surrogate gap, and implementation-defined or malformed escapes (lone and paired surrogates, truncated / non-hex \\u, \\U, \\x, backslash before arbitrary characters, trailing backslash); each case parsed in a forked worker under a 5 s watchdog; Ok => AST numerals equal the written values exactly, unfit value => Err. Non-trivial = the query contains a numeral within 2 of 0 / 2^31 / 2^32 / 2^63 / 2^64 or beyond 2^63, a negative count, a float beyond 1e306 / below 1e-306 / overflowing, or (nest class) depth >= 64, or (string class) an escape sequence or non-ASCII character; where openCypher fixes the meaning of a string literal the AST must hold exactly that string, for the other escape forms only 'returns' is asserted; distinct = distinct query texts.",
     );
     let mut run = Run { ev, kfs: Kfs { known: &known, strict: args.strict }, refusals_by_class: BTreeMap::new() };
     run.ev.assume("timeouts of the 5 s per-case watchdog are counted, never reported (super-linear backtracking is outside C25)");
